@@ -20,10 +20,11 @@ def _member(mode, log):
     return M
 
 
-def check_order(modes, return_ctx, bs):
+def check_order(modes, return_ctx, bs, member_cfg=None):
+    """member_cfg: the members' own (standalone) configuration - a composition uses ITS configuration, whatever the members carry"""
     from kappadata.collators.base.kd_compose_collator import KDComposeCollator
     log = []
-    members = [_member(m, log)() for m in modes]
+    members = [_member(m, log)(**(member_cfg or {})) for m in modes]
     c = KDComposeCollator(members, dataset_mode="x", return_ctx=return_ctx)
     samples = [torch.full((3,), float(i)) for i in range(bs)]
     batch = [(s, {"k": torch.tensor(i), "j": torch.tensor(2 * i)}) for i, s in enumerate(samples)] if return_ctx else samples
@@ -59,9 +60,11 @@ def check_order(modes, return_ctx, bs):
     return None
 
 
-def check_padding(lengths, return_ctx, extra):
+def check_padding(lengths, return_ctx, extra, through=False):
+    """through: the samples carry a context but the pipeline is configured with return_ctx=False, so the (sample, ctx) pairs
+    travel through the padding collator itself (the configuration of the repository's own tests)"""
     from kappadata.collators.pad_sequences_collator import PadSequencesCollator
-    c = PadSequencesCollator(dataset_mode="x class" if extra else "x", return_ctx=return_ctx)
+    c = PadSequencesCollator(dataset_mode="x class" if extra else "x", return_ctx=return_ctx and not through)
     seqs = [torch.arange(1, n + 1).float().unsqueeze(1).repeat(1, 2) for n in lengths]
     samples = []
     for i, s in enumerate(seqs):
@@ -75,8 +78,9 @@ def check_padding(lengths, return_ctx, extra):
         if not (isinstance(out, tuple) and len(out) == 2 and isinstance(out[1], dict)):
             return {"what": "(batch, ctx) not returned", "lengths": lengths}
         out, ctx = out
-        if ctx["k"].tolist() != list(range(len(lengths))):
-            return {"what": "context not batched like default_collate", "lengths": lengths}
+        if set(ctx.keys()) != {"k"} or ctx["k"].tolist() != list(range(len(lengths))):
+            return {"what": "context not batched like default_collate (keys lost / invented or values changed)", "lengths": lengths,
+                    "through_collator": through, "observed": str(ctx)[:100]}
     x = out[0]
     L = max(lengths)
     if tuple(x.shape) != (len(lengths), L, 2):
@@ -128,6 +132,14 @@ def search(limit, seed):
                 if r is not None:
                     r["input"] = {"modes": list(order), "return_ctx": rc, "batch_size": bs}
                     return r, n
+                if k <= 2 and bs == 3:
+                    # members that carry a standalone configuration of their own, different from the composition's
+                    for cfg in ({"dataset_mode": "x", "return_ctx": not rc}, {"dataset_mode": "class x", "return_ctx": rc}):
+                        n += 1
+                        r = check_order(list(order), rc, bs, cfg)
+                        if r is not None:
+                            r["input"] = {"modes": list(order), "return_ctx": rc, "batch_size": bs, "member_config": cfg}
+                            return r, n
     for lengths in ([1], [3, 1], [2, 2], [1, 4, 2], [5, 1, 1, 3], [6, 2, 6, 1, 3]):
         for rc, extra in itertools.product((False, True), (False, True)):
             n += 1
@@ -135,6 +147,12 @@ def search(limit, seed):
             if r is not None:
                 r["input"] = {"lengths": lengths, "return_ctx": rc, "extra_field": extra}
                 return r, n
+            if rc:
+                n += 1
+                r = check_padding(lengths, rc, extra, through=True)
+                if r is not None:
+                    r["input"] = {"lengths": lengths, "return_ctx": rc, "extra_field": extra, "ctx_route": "through the padding collator"}
+                    return r, n
     n += 1
     r = check_wrapper_twice()
     if r is not None:
